@@ -1,13 +1,30 @@
 //! Registry: which scenarios decide which property.
 
 use crate::cli;
+use crate::srv;
 use crate::search::{Check, Scen, Sweep};
 
 const CLI_REAL: &str = "jsonrpsee-core async client (Client, send/read/shutdown tasks, RequestManager, RpcService, request timers), jsonrpsee-types, tokio sync primitives and timers (paused clock)";
 const CLI_STUB: &str = "transport (in-memory SimTransport implementing TransportSenderT/TransportReceiverT), remote server (scripted peer), futures_timer (tokio-clock drop-in, hook H3), OS scheduling (task gate, hook H2)";
 
+const SRV_REAL: &str = "jsonrpsee-server (TowerService / TowerServiceNoHttp, ws::background_task + send_task, http::call_with_service, low-level ws::connect, middleware::rpc::RpcService), jsonrpsee-core server (RpcModule, MethodResponse, BoundedWriter, BatchResponseBuilder, subscriptions, MethodSink), jsonrpsee-types, hyper 1.x HTTP/1 server, hyper-util auto builder, soketto (both ends), tokio sync primitives and timers (paused clock), tower";
+const SRV_STUB: &str = "TCP (SimStream: in-memory byte stream with short reads/writes, latency, reset), the accept loop of Server::start (the harness builds one TowerService per simulated connection, as examples/jsonrpsee_as_service does), the blocking thread pool (inline gated task, hook H2), random subscription ids (scripted IdProvider), remote clients (raw soketto / hyper client peers), OS scheduling (task gate)";
+
 pub fn all() -> Vec<Check> {
 	vec![Check {
+		prop: "C01",
+		level: "exploration",
+		scens: vec![Scen { name: "srv_single", f: || Box::pin(srv::single::scenario()), weight: 1, sweep: None, max_steps: 200_000 }],
+		quick_runs: 3_000,
+		thorough_runs: 400_000,
+		rule: "1-2 WebSocket connections x 2-12 generated messages (valid calls over all id forms / method names / params shapes, notifications, ids outside the domain, invalid request objects, non-object JSON, non-JSON incl. truncations and invalid UTF-8, 0-127 bytes of leading whitespace) pipelined with drawn think times, each also sent as one HTTP POST (direct tower call or hyper over a simulated stream); handler kinds sync/async/blocking/blocking-that-panics; swarm over entry point, write-queue capacity, stream fragmentation; non-trivial = replies arrived in an order different from the order the messages were sent; distinct = schedule fingerprint",
+		lib_panic_is_violation: false,
+		stuck_is_violation: false,
+		assumptions: vec!["a poll of a task is atomic", "message generation is seeded generation from a grammar, not enumeration", "duplicated `id` members, non-JSON whitespace (\\x0c) and more than 127 leading whitespace bytes are not generated"],
+		real: SRV_REAL,
+		stub: SRV_STUB,
+	},
+	Check {
 		prop: "C03",
 		level: "exploration",
 		scens: vec![Scen { name: "cli_calls", f: || Box::pin(cli::calls::scenario()), weight: 1, sweep: None, max_steps: 50_000 }],
